@@ -29,7 +29,7 @@ func checkC15(p *Prog, r *Report) {
 		"concurrent behaviour beyond the copy-on-write / atomic discipline decided here")
 	c15PlanNext(p, r, "C15.plan-next")
 	c15PlanNew(p, r)
-	c15Cow(p, r)
+	c15Cow(p, r, "C15")
 }
 
 func lbTypes(p *Prog) (lb, plan *types.Named) {
@@ -278,10 +278,11 @@ func c15PlanNew(p *Prog, r *Report) {
 	r.check(len(bad) == 0, rule, lb.Obj().Name()+".NewQueryPlan", p.Pos(fn.Pos()), "", strings.Join(dedupe(bad), " || "))
 }
 
-func c15Cow(p *Prog, r *Report) {
-	const rule = "C15.cow"
+func c15Cow(p *Prog, r *Report, prefix string) {
+	rule := prefix + ".cow"
+	atomicsRule := prefix + ".atomics"
 	r.Rule(rule, "the published host slice is never written through (no element store, no append or copy into it); writers publish fresh slices with atomic.Value.Store while holding the balancer mutex; Remove drops the host with the matching key")
-	r.Rule("C15.atomics", "the balancer's rotating counter is accessed only through sync/atomic; the published slice only through atomic.Value")
+	r.Rule(atomicsRule, "the balancer's rotating counter is accessed only through sync/atomic; the published slice only through atomic.Value")
 	lb, plan := lbTypes(p)
 	lbHosts := p.Field("proxycore", lb.Obj().Name(), "hosts")
 	lbIndex := p.Field("proxycore", lb.Obj().Name(), "index")
@@ -502,5 +503,5 @@ func c15Cow(p *Prog, r *Report) {
 	if nacc < 5 {
 		ab = append(ab, fmt.Sprintf("only %d accesses found", nacc))
 	}
-	r.check(len(ab) == 0, "C15.atomics", lb.Obj().Name()+".{index,hosts}", p.Pos(onEvent.Pos()), fmt.Sprintf("%d accesses", nacc), strings.Join(dedupe(ab), " || "))
+	r.check(len(ab) == 0, atomicsRule, lb.Obj().Name()+".{index,hosts}", p.Pos(onEvent.Pos()), fmt.Sprintf("%d accesses", nacc), strings.Join(dedupe(ab), " || "))
 }
